@@ -312,9 +312,37 @@ static int defaults() {
   return 0;
 }
 
+// local_sweep <cont> <op>: the counterexample of a local (one-neighbourhood) contract has no heap to replay; the operation is run on the
+// real container from every recency order of up to three entries, on every entry and on an absent key, with the size / touch
+// parameters 0, positive, negative, and compared with the reference recency list (a search for a failing input, reported as such)
+template <typename C>
+static int local_sweep(const std::string& cont, const std::string& op) {
+  const char* shapes[] = {"-", "0", "0,1", "1,0", "0,1,2", "2,0,1", "1,2,0"};
+  for (const char* sh : shapes) {
+    int n = (std::string(sh) == "-") ? 0 : (int)parse_shape(sh).size();
+    for (int hit = -1; hit < n; hit++) for (long long nsz : {-1LL, 0LL, 7LL}) for (int sz : {0, 5}) for (int touch = 0; touch < 2; touch++) {
+      std::vector<std::string> sv = {"driver", op, cont, std::to_string(n), sh, "-", "in_key=11,22,33", "in_size=1,2,3", "in_val=10,20,30",
+          "in_hit=" + std::to_string((unsigned)(hit < 0 ? 0xFFFFFFFFu : (unsigned)hit)), "in_k=77", "in_v=5", "in_sz=" + std::to_string(sz),
+          "in_nsz=" + std::to_string((unsigned long long)nsz), "in_touch=" + std::to_string(touch)};
+      std::vector<char*> av;
+      for (auto& x : sv) av.push_back(x.data());
+      Args a((int)av.size(), av.data());
+      printf("sweep: %s.%s on recency order {%s}, %s, sz=%d nsz=%lld touch=%d\n", cont.c_str(), op.c_str(), sh, hit < 0 ? "absent key" : ("entry #" + std::to_string(hit)).c_str(), sz, nsz, touch);
+      int rc = run<C>(a, op);
+      if (rc == 1) return 1;
+    }
+  }
+  return 0;
+}
+
 int main(int argc, char** argv) {
   Args a(argc, argv);
   if (a.mode == "defaults") return defaults();
+  if (a.mode == "local_sweep" && a.extra.size() >= 2) {
+    int rc = a.extra[0] == "LRUMap" ? local_sweep<MapC>(a.extra[0], a.extra[1]) : local_sweep<SetC>(a.extra[0], a.extra[1]);
+    if (rc == 0) printf("real code behaves like the reference recency list on the swept inputs\n");
+    return rc;
+  }
   if (a.extra.empty()) return 2;
   bool map = a.extra[0] == "LRUMap";
   if (a.mode == "local_insert_existing") return map ? local_insert_existing<MapC>(a) : local_insert_existing<SetC>(a);
